@@ -287,3 +287,8 @@ def _r01_5(repo: Repo, rep: Report) -> None:
                       "Python's salted hash()) share one compiled method: the second specialisation silently runs the first one's code", loc=fi.loc)
     else:
         rep.ok("R01.5", "the specialisation key is a hashlib digest of the joined qualified names, with no lossy step", None)
+
+
+_ADDENDUM = ' R01.5 also requires the specialisation key to be a cryptographic digest of the joined names with no lossy step. Borrowed: R09.2 (the by-alias key resolution of the field block, which the round trip by alias depends on).'
+EXPLANATION += _ADDENDUM
+LEVEL_TEXT += _ADDENDUM
